@@ -16,7 +16,7 @@ for d in sorted(glob.glob(H + '/seeded/*/')):
             caught.append('%s (%s)' % (cid, ', '.join(r.get('mechanisms', [])[:3])))
         else:
             caught.append('%s: %s' % (cid, r.get('verdict')))
-    note = 'missed at first, check strengthened' if m.get('history') else ''
+    note = short(m.get('history'), 220) if m.get('history') else ''
     rows.append('| %s | %s | %s | %s | %s | %s |' % (sid, m.get('property', sid[:3]), short(m.get('summary'), 200),
                 short(m.get('needs'), 160), '; '.join(caught).replace('|', '/'), note))
 block = '<!-- seeded-table:begin -->\n' + '\n'.join(rows) + '\n<!-- seeded-table:end -->'
